@@ -87,6 +87,26 @@ def run(ctx):
         else:
             bad_prod.append((name, ob, obi, via, sorted(s_start), sorted(set(lonely))))
     if bad_prod:
+        # Two independent variables (max_index / next_id).  Refined necessary condition (triage F29a): they must agree whenever a
+        # leader assigns client-write indexes, i.e. (1) every TAIL truncation also lowers next_id, and (2) a front purge may empty the
+        # log (max_index = 0) only because a new leader appends its no-op - which re-synchronises the two - before any client write.
+        bad_tail, n_tail = tail_truncations_without_next_id(F, ctx.depth)
+        ev = F.try_method("Raft", "handle_internal_event")
+        noop_first = False
+        if ev is not None:
+            mbe = F.main_body(ev)
+            ce = edge_conditions(mbe)
+            for (nb, nt) in calls_matching(mbe, r"initiate_noop_commit$"):
+                g, _w, _ = guarded_by(mbe, nb, lambda c: c.kind == "discr" and c.variants == {"BecomeLeader"}, ce)
+                noop_first = noop_first or g
+        lonely_all = sorted(set(x for bp in bad_prod for x in bp[5]))
+        other = [x for x in lonely_all if not re.search(r"::(remove_range|purge_logs_up_to)$", x)]
+        if n_tail >= 1 and not bad_tail and noop_first and not other:
+            ctx.ok("C29-a", "WriteMetadata.start_idx#agrees-with-allocated-indexes",
+                   "start_idx reads max_index, entries are allocated from next_id: every tail truncation (%d site(s)) lowers next_id too, and the only "
+                   "other writers of max_index alone are front purges %s, after which a new leader appends its no-op (BecomeLeader arm) before any client write" % (n_tail, lonely_all))
+            bad_prod = []
+    if bad_prod:
         (name, ob, obi, via, ss, lonely) = bad_prod[0]
         ctx.bad("C29-a", "WriteMetadata.start_idx#agrees-with-allocated-indexes",
                 "start_idx = %s()+1 (in %s) reads %s while the entries get their indexes from pre_allocate_id_range, which reads %s; %s store the former without "
